@@ -1,6 +1,7 @@
 package main
 
 import (
+	"sort"
 	"fmt"
 	"go/token"
 	"math"
@@ -691,7 +692,23 @@ func (e *Exec) intBinINTplain(op token.Token, x, y Int, tx, ty *Term, xl, xh int
 			c, o3 := mulOv(xh, yl)
 			d, o4 := mulOv(xh, yh)
 			if o1 && o2 && o3 && o4 {
-				return e.wrapINT(t, w, sg, min64(a, b, c, d), max64(a, b, c, d), true)
+				res := e.wrapINT(t, w, sg, min64(a, b, c, d), max64(a, b, c, d), true)
+				// remember "symbolic x constant" (no wrap): a sum of such products may be a positional number
+				if res.S != nil && res.S.Name == t.Name && inRange(min64(a, b, c, d), max64(a, b, c, d), w, sg) {
+					var st *Term
+					var k int64
+					if y.S == nil && x.S != nil && y.C > 1 {
+						st, k = x.S, y.C
+					} else if x.S == nil && y.S != nil && x.C > 1 {
+						st, k = y.S, x.C
+					}
+					if st != nil {
+						nt := *res.S
+						nt.MulOf, nt.MulC = st, k
+						res.S = &nt
+					}
+				}
+				return res
 			}
 		}
 		return e.wrapINT(t, w, sg, 0, 0, false)
@@ -1432,7 +1449,57 @@ func (e *Exec) radixTag(x Int) (*radix, int64, int64, int64) {
 	if _, ok := e.radixes[x.S.Name]; !ok && x.S.Sum != nil {
 		e.radixFromSum(x)
 	}
+	if _, ok := e.radixes[x.S.Name]; !ok && x.S.Sum != nil {
+		e.radixFromProducts(x)
+	}
 	return e.radixFor(x), 0, 1, 1
+}
+
+// radixFromProducts: x = d1*c1 + d2*c2 + ... + dk*ck + rest with constants c1 > c2 > ... > ck, each dividing the
+// previous one, 0 <= d(j) < c(j-1)/c(j) for j > 1, d1 >= 0 and 0 <= rest < ck is a positional number whose digits
+// are the given terms: register that decomposition instead of introducing fresh digits (e.g. a timecode
+// h*Hour + m*Minute + s*Second + ns read from its fields).
+func (e *Exec) radixFromProducts(x Int) {
+	type part struct {
+		d Int
+		c int64
+	}
+	var ps []part
+	rest := Int{W: x.W, Sg: x.Sg}
+	for _, a := range x.S.Sum {
+		if a.S != nil && a.S.MulOf != nil && a.S.MulC > 1 {
+			ps = append(ps, part{Int{W: x.W, Sg: x.Sg, S: a.S.MulOf}, a.S.MulC})
+		} else {
+			rest = e.intBin(token.ADD, rest, a)
+		}
+	}
+	if len(ps) == 0 {
+		return
+	}
+	sort.Slice(ps, func(i, j int) bool { return ps[i].c > ps[j].c })
+	for i := range ps {
+		lo, hi, ok := e.ival(ps[i].d)
+		if !ok || lo < 0 {
+			return
+		}
+		if i > 0 {
+			if ps[i].c == ps[i-1].c || ps[i-1].c%ps[i].c != 0 || hi >= ps[i-1].c/ps[i].c {
+				return
+			}
+		}
+	}
+	rl, rh, rok := e.ival(rest)
+	if !rok || rl < 0 || rh >= ps[len(ps)-1].c {
+		return
+	}
+	r := &radix{x: x.S}
+	for _, p := range ps {
+		r.cs = append(r.cs, p.c)
+		r.ds = append(r.ds, p.d)
+	}
+	r.ds = append(r.ds, rest)
+	e.radixes[x.S.Name] = r
+	e.radixDerived++
 }
 
 // radixFromSum: x = (top digit range of some decomposition, unit 1, down to coefficient lo) + rest with
